@@ -1,12 +1,14 @@
 import BoltonsVerif.Common
 import BoltonsVerif.C05.Model
 import BoltonsVerif.C05.Accept
+import BoltonsVerif.C05.Env
+import BoltonsVerif.C05.Classify
 /-
 C05 line protocol.  One line = one whole case.
 
 1. THE TIE (acceptance): the trace OBSERVED on the real `atomic_save` (first save + immediate retry)
 
-  <flags> <perms> <umask> <dest> <part> <raises> <content> <ok1> <trace1> <ok2> <trace2>
+  <flags> <perms> <umask> <dest> <part> <raises> <content> <ok1> <trace1> <ok2> <trace2> <raw1> <raw2>
     flags   four digits 0/1: overwrite, overwrite_part, rm_part_on_exc, text_mode
     perms   `-` or decimal permission bits
     umask   decimal
@@ -27,10 +29,13 @@ C05 line protocol.  One line = one whole case.
               R  L  U                   rename-or-replace part->dest, link part->dest, unlink of the part file
               T  W<hex>  D  ?           truncation of / write to / unlink of the destination, unclassified mutating call
 
-  Output: `<first> | <retry>`, each half `acc=<code> exec=<ok|stuck@k> nat=<ok|bad@k> dest=<-|mode:hex> part=<-|mode:hex>`
+    raw1/2  the recorder's raw facts about the same calls (format below: `parseRaw?`)
+
+  Output: `<first> | <retry>`, each half `acc=<code> exec=<ok|stuck@k> nat=<ok|bad@k> cls=<ok|bad@k> dest=<-|mode:hex> part=<-|mode:hex>`
     code 0 = `C05.Accept` holds; 9@k = the automaton refuses observation k; 1-4 = end condition 1-4 fails
     exec  = `C05.replay` of the trace on the abstract file system (the retry starts from the first save's result)
     nat   = every failure the real file system produced on its own is a failure of the abstract one as well
+    cls   = `C05.classify` of the raw records is exactly the trace sent (the Lean classification of the recorded facts)
 
 2. THE REFERENCE TRANSLITERATION (statistics only, never an alarm): `REF ` followed by
 
@@ -229,39 +234,135 @@ def showAcc (cfg : Cfg) (raises ok : Bool) (content : Bytes) (fs : FS) (t : List
     | none => "9"
   | c => toString c
 
+/-! ### the raw records of the recorder: `<call>;<roles>;<bits>;<mode>;<data>` joined by `,` (`-` = none)
+    roles  one letter per path argument (or for the descriptor / file object): d = destination, p = part file, o = other
+    bits   twelve digits 0/1: ok, injected, open-for-writing, O_CREAT, O_EXCL, O_TRUNC, name did not exist before, same
+           directory as the destination, builtin open on a descriptor, close() of a closed object, failing close() that
+           closed, the other process created the destination just before the call
+    The driver classifies them itself (`C05.classify`) and reports `cls=ok` when that equals the trace sent. -/
+
+def parseRole? (c : Char) : Option Role :=
+  if c = 'd' then some .dest else if c = 'p' then some .part else if c = 'o' then some .other else none
+
+def parseRaw? (w : String) : Option Raw :=
+  match splitOnChar w ';' with
+  | [call, roles, bits, mode, data] =>
+    match roles.toList.map parseRole?, bits.toList.map bit?, mode.toNat?, bytesOfHex? data with
+    | rs, [some ok, some inj, some wr, some creat, some excl, some trunc, some created, some samedir, some onFd,
+           some wasClosed, some performed, some appeared], some mode, some data =>
+      if rs.all Option.isSome then
+        some ⟨kindOf call, rs.filterMap id, ok, inj, wr, creat, excl, trunc, created, samedir, onFd, wasClosed, performed,
+              appeared, mode, data⟩
+      else none
+    | _, _, _, _ => none
+  | _ => none
+
+def parseRaws? (s : String) : Option (List Raw) :=
+  if s = "-" then some [] else
+  (splitOnChar s ',').foldr (fun w acc =>
+    match acc, parseRaw? w with
+    | some l, some o => some (o :: l)
+    | _, _ => none) (some [])
+
 /-- one half of the answer, and the file system the next save starts from -/
-def showHalf (cfg : Cfg) (raises ok : Bool) (content : Bytes) (fs : FS) (e : Nat) (tx : List (Obs × Option Ev)) : String × Option FS :=
+def showHalf (cfg : Cfg) (raises ok : Bool) (content : Bytes) (fs : FS) (e : Nat) (tx : List (Obs × Option Ev))
+    (raws : Option (List Raw) := none) : String × Option FS :=
   let t := tx.map (·.1)
   let acc := showAcc cfg raises ok content fs t
   let nat := match natCheck (M.start fs e) tx 0 with
     | some k => s!"bad@{k}"
     | none => "ok"
+  let cls := match raws with
+    | none => ""
+    | some rs => match firstDiff (rs.flatMap classify) tx 0 with
+      | none => " cls=ok"
+      | some k => s!" cls=bad@{k}"
   match replay (M.start fs e) t with
-  | some m => (s!"acc={acc} exec=ok nat={nat} dest={showFile m.fs m.fs.dir.dest} part={showFile m.fs m.fs.dir.part}", some m.fs)
+  | some m => (s!"acc={acc} exec=ok nat={nat}{cls} dest={showFile m.fs m.fs.dir.dest} part={showFile m.fs m.fs.dir.part}", some m.fs)
   | none =>
     let k := (replayStuck (M.start fs e) t 0).getD 0
-    (s!"acc={acc} exec=stuck@{k} nat={nat} dest=? part=?", none)
+    (s!"acc={acc} exec=stuck@{k} nat={nat}{cls} dest=? part=?", none)
 
 def handleAcc (ws : List String) : String :=
   match ws with
-  | [flags, perms, umask, dest, part, raises, content, ok1, t1, ok2, t2] =>
+  | [flags, perms, umask, dest, part, raises, content, ok1, t1, ok2, t2, r1, r2] =>
     match flags.toList.map bit?, (if perms = "-" then some none else perms.toNat?.map some),
           umask.toNat?, parseFile? dest, parseFile? part, raises.toList.map bit?,
-          bytesOfHex? content, ok1.toList.map bit?, parseTrace? t1, ok2.toList.map bit?, parseTrace? t2 with
+          bytesOfHex? content, ok1.toList.map bit?, parseTrace? t1, ok2.toList.map bit?, parseTrace? t2,
+          parseRaws? r1, parseRaws? r2 with
     | [some ow, some owp, some rm, some txt], some perms, some umask, some dest, some part,
-      [some raises], some content, [some ok1], some t1, [some ok2], some t2 =>
+      [some raises], some content, [some ok1], some t1, [some ok2], some t2, some r1, some r2 =>
       let cfg : Cfg := ⟨ow, owp, rm, txt, perms⟩
       let (fs0, e) := mkFS dest part umask
-      let (h1, fs1) := showHalf cfg raises ok1 content fs0 e t1
+      let (h1, fs1) := showHalf cfg raises ok1 content fs0 e t1 (some r1)
       match fs1 with
-      | some fs1 => s!"{h1} | {(showHalf cfg false ok2 content fs1 e t2).1}"
+      | some fs1 => s!"{h1} | {(showHalf cfg false ok2 content fs1 e t2 (some r2)).1}"
       | none => s!"{h1} | -"
-    | _, _, _, _, _, _, _, _, _, _, _ => "bad-op"
+    | _, _, _, _, _, _, _, _, _, _, _, _, _ => "bad-op"
+  | _ => "bad-op"
+
+/-! ### histories: several saves on the same directory, the world changing in between
+
+  HIST <umask> <dest> <part> <step> ...
+    step   S/<flags>/<perms>/<raises>/<content>/<ok>/<trace>/<raw records>   one save with ITS configuration and observed trace
+           E/c<mode>  E/d  E/p<mode>:<hex>  E/u<umask>          the destination is chmod-ed / deleted / replaced by another
+                                                                writer's file, the process umask changes (`C05.EnvStep`)
+           E/P<mode>:<hex>  E/Q                                 a part file appears under the part name / is removed
+  Output: one half per step joined by ` | `: a save as in protocol 1 (judged by `C05.Accept` with the umask and the
+  destination's permission bits of the state THAT save starts from), an environment step as `env dest=… part=…`. -/
+
+def parseEnvStep? (w : String) : Option EnvStep :=
+  match w.toList with
+  | ['d'] => some .unlinkDest
+  | 'c' :: md => (String.ofList md).toNat?.map EnvStep.chmodDest
+  | 'u' :: um => (String.ofList um).toNat?.map EnvStep.setUmask
+  | 'p' :: rest => match splitOnChar (String.ofList rest) ':' with
+    | [md, hx] => match md.toNat?, bytesOfHex? hx with
+      | some md, some b => some (.putDest md b)
+      | _, _ => none
+    | _ => none
+  | ['Q'] => some .unlinkPart
+  | 'P' :: rest => match splitOnChar (String.ofList rest) ':' with
+    | [md, hx] => match md.toNat?, bytesOfHex? hx with
+      | some md, some b => some (.putPart md b)
+      | _, _ => none
+    | _ => none
+  | _ => none
+
+def histLoop (e : Nat) : FS → List String → List String → String
+  | _, [], acc => " | ".intercalate acc.reverse
+  | fs, w :: ws, acc =>
+    match splitOnChar w '/' with
+    | ["E", x] => match parseEnvStep? x with
+      | some st =>
+        let fs' := st.apply fs
+        histLoop e fs' ws (s!"env dest={showFile fs' fs'.dir.dest} part={showFile fs' fs'.dir.part}" :: acc)
+      | none => "bad-op"
+    | ["S", flags, perms, raises, content, ok, t, rw] =>
+      match flags.toList.map bit?, (if perms = "-" then some none else perms.toNat?.map some), raises.toList.map bit?,
+            bytesOfHex? content, ok.toList.map bit?, parseTrace? t, parseRaws? rw with
+      | [some ow, some owp, some rm, some txt], some perms, [some raises], some content, [some ok], some t, some rw =>
+        let cfg : Cfg := ⟨ow, owp, rm, txt, perms⟩
+        match showHalf cfg raises ok content fs e t (some rw) with
+        | (h, some fs') => histLoop e fs' ws (h :: acc)
+        | (h, none) => " | ".intercalate (h :: acc).reverse
+      | _, _, _, _, _, _, _ => "bad-op"
+    | _ => "bad-op"
+
+def handleHist (ws : List String) : String :=
+  match ws with
+  | umask :: dest :: part :: steps =>
+    match umask.toNat?, parseFile? dest, parseFile? part with
+    | some umask, some dest, some part =>
+      let (fs0, e) := mkFS dest part umask
+      histLoop e fs0 steps []
+    | _, _, _ => "bad-op"
   | _ => "bad-op"
 
 def handle (line : String) : String :=
   match words line with
   | "REF" :: ws => handleRef ws
+  | "HIST" :: ws => handleHist ws
   | ws => handleAcc ws
 
 end C05.Driver
